@@ -986,3 +986,117 @@ pub fn lzma2_parse_lzma_take_limit() {
     forget(accum);
     forget(dec);
 }
+
+
+/// Two uncompressed 2-byte chunks that both reset the dictionary, then the end byte, into a sink
+/// that fails once at write call FAIL (usize::MAX = never; the fault does not persist) or accepts
+/// only SHORTW bytes per write call.
+fn uncompressed_sink_faults<const FAIL: usize, const SHORTW: usize>() {
+    let mut t = Tape::<16>::new();
+    let b: [u8; 4] = t.bytes::<4>();
+    let f = [0x01u8, 0, 1, b[0], b[1], 0x01, 0, 1, b[2], b[3], 0x00, 0xEE];
+    let mut dec = mk_decoder([script(1, K_LIT); 4]);
+    let mut rd = ArrReader::<12>::new(f, 12);
+    let mut sink = RecSink::<8>::new();
+    sink.fail_at = FAIL;
+    sink.short = SHORTW;
+    let r = dec.decompress(&mut rd, &mut sink);
+    let ok = r.is_ok();
+    forget(r);
+    if FAIL != usize::MAX {
+        vassert!(!ok, "lzma2: a failing write of the sink (at a dictionary reset or at the end) makes the decoder fail");
+        vassert!(sink.len <= 4, "lzma2: nothing is written twice after a failed write");
+        let mut k = 0;
+        while k < 4 {
+            if k < sink.len {
+                vassert!(sink.buf[k] == b[k], "lzma2: what the sink accepted before the failure is a prefix of the output");
+            }
+            k += 1;
+        }
+    } else {
+        vassert!(ok, "lzma2: well-formed uncompressed chunks decode");
+        vassert!(sink.len == 4 && sink.buf[0] == b[0] && sink.buf[1] == b[1] && sink.buf[2] == b[2] && sink.buf[3] == b[3], "lzma2: a sink that accepts only part of each write still receives every byte, in order (also at a dictionary reset)");
+        vassert!(sink.flushes >= 1 && sink.flushed_len == 4, "lzma2: sink flushed at the end");
+    }
+    vcover!(true, "end_reached");
+    forget(dec);
+}
+
+//@ harness props=C12,C02 tier=quick unwind=6 unwindset=decompress:5,default_read_exact:4,uncompressed_sink_faults:6,RecSink.*write_all:6 mem_gb=6 timeout=600 native=no
+//@ bound: LZMA2: two dictionary-resetting uncompressed chunks of 2 symbolic bytes, sink accepting ONE byte per write call
+#[cfg_attr(kani, kani::proof)]
+#[cfg_attr(kani, kani::stub(std::fmt::format, crate::verif_common::stub_format))]
+#[cfg_attr(kani, kani::stub(std::io::Error::is_interrupted, crate::verif_common::stub_not_interrupted))]
+#[cfg_attr(kani, kani::stub(crate::decode::lzbuffer::LzAccumBuffer::from_stream, crate::decode::lzbuffer::verif_h::accum_from_stream_with_capacity))]
+pub fn lzma2_uncompressed_sink_short1() {
+    uncompressed_sink_faults::<{ usize::MAX }, 1>()
+}
+
+//@ harness props=C12,C02 tier=quick unwind=6 unwindset=decompress:5,default_read_exact:4,uncompressed_sink_faults:6,RecSink.*write_all:6 mem_gb=6 timeout=600 native=no
+//@ bound: LZMA2: two dictionary-resetting uncompressed chunks of 2 symbolic bytes, the sink's first write call (the flush at the second dictionary reset) fails once
+#[cfg_attr(kani, kani::proof)]
+#[cfg_attr(kani, kani::stub(std::fmt::format, crate::verif_common::stub_format))]
+#[cfg_attr(kani, kani::stub(std::io::Error::is_interrupted, crate::verif_common::stub_not_interrupted))]
+#[cfg_attr(kani, kani::stub(crate::decode::lzbuffer::LzAccumBuffer::from_stream, crate::decode::lzbuffer::verif_h::accum_from_stream_with_capacity))]
+pub fn lzma2_uncompressed_sink_fault0() {
+    uncompressed_sink_faults::<0, 0>()
+}
+
+//@ harness props=C12,C02 tier=quick unwind=6 unwindset=decompress:5,default_read_exact:4,uncompressed_sink_faults:6,RecSink.*write_all:6 mem_gb=6 timeout=600 native=no
+//@ bound: LZMA2: two dictionary-resetting uncompressed chunks of 2 symbolic bytes, the sink's second write call fails once
+#[cfg_attr(kani, kani::proof)]
+#[cfg_attr(kani, kani::stub(std::fmt::format, crate::verif_common::stub_format))]
+#[cfg_attr(kani, kani::stub(std::io::Error::is_interrupted, crate::verif_common::stub_not_interrupted))]
+#[cfg_attr(kani, kani::stub(crate::decode::lzbuffer::LzAccumBuffer::from_stream, crate::decode::lzbuffer::verif_h::accum_from_stream_with_capacity))]
+pub fn lzma2_uncompressed_sink_fault1() {
+    uncompressed_sink_faults::<1, 0>()
+}
+
+
+//@ harness props=C02,C09,C17 tier=quick unwind=8 unwindset=default_read_exact:4,lzma2_parse_lzma_status_flags:10 mem_gb=8 timeout=900 native=no
+//@ bound: parse_lzma directly with a fully SYMBOLIC control byte >= 0x80 (reset class and all five size bits), symbolic 16-bit size field, `process` scripted, `reset_state` observed, window pre-filled with one byte: dictionary reset iff class 3 (whatever the size bits), state reset iff class >= 1, properties read iff class >= 2, target = window length after the reset + declared size
+#[cfg_attr(kani, kani::proof)]
+#[cfg_attr(kani, kani::stub(std::fmt::format, crate::verif_common::stub_format))]
+#[cfg_attr(kani, kani::stub(std::io::Error::is_interrupted, crate::verif_common::stub_not_interrupted))]
+#[cfg_attr(kani, kani::stub(crate::decode::lzma::DecoderState::process, crate::decode::lzma::DecoderState::scripted_process))]
+#[cfg_attr(kani, kani::stub(crate::decode::lzma::DecoderState::reset_state, crate::decode::lzma2::verif_h::observing_reset_state))]
+pub fn lzma2_parse_lzma_status_flags() {
+    use std::sync::atomic::Ordering::Relaxed;
+    let mut t = Tape::<32>::new();
+    let status = 0x80u8 | (t.u8() & 0x7F);
+    let ulo = t.u16();
+    let class = (status >> 5) & 3;
+    let hi5 = status & 0x1F;
+    // layout with the properties byte present (0x5D); for classes 0/1 that byte is simply the
+    // first payload byte
+    let f = [(ulo >> 8) as u8, ulo as u8, 0, 6, 0x5D, 1, 2, 3, 4, 5, 6, 0xEE];
+    crate::decode::lzma::verif_h::PR_CALLS.store(0, Relaxed);
+    crate::decode::lzma::verif_h::PR_LEN.store(usize::MAX, Relaxed);
+    let mut dec = mk_decoder([script(1, K_LIT); 4]);
+    let mut rd = ArrReader::<12>::new(f, 12);
+    let mut sink = RecSink::<4>::new();
+    let mut accum = crate::decode::lzbuffer::verif_h::accum_from_stream_with_capacity(&mut sink, usize::MAX);
+    let pre = accum.append_literal(0xAA);
+    forget(pre);
+    let r = dec.parse_lzma(&mut accum, &mut rd, status);
+    let ok = r.is_ok();
+    forget(r);
+    let window_after = accum.len();
+    forget(accum);
+    vassert!(ok, "lzma2: a well-formed chunk header is accepted for every control byte >= 0x80");
+    vassert!((sink.len == 1) == (class == 3) && (window_after == 0) == (class == 3), "lzma2: dictionary reset (flush) iff control class 3");
+    vassert!(crate::decode::lzma::verif_h::reset_count(&dec.lzma_state) == if class >= 1 { 1 } else { 0 }, "lzma2: the decoder state is reset exactly by the chunks that ask for it and carried otherwise");
+    let p = dec.lzma_state.lzma_props;
+    if class >= 2 {
+        vassert!(p.lc == 3 && p.lp == 0 && p.pb == 2, "lzma2: new properties replace the old ones");
+    } else {
+        vassert!(p.lc == 0 && p.lp == 0 && p.pb == 0, "lzma2: properties of an earlier chunk stay in effect (also across a state reset without new props)");
+    }
+    let declared = (((hi5 as u64) << 16) | (ulo as u64)) + 1;
+    let base: u64 = if class == 3 { 0 } else { 1 };
+    vassert!(crate::decode::lzma::verif_h::unpacked_size_of(&dec.lzma_state) == Some(base + declared), "lzma2: per-chunk target = window length + declared size");
+    vassert!(crate::decode::lzma::verif_h::PR_CALLS.load(Relaxed) == 1, "lzma2: the chunk is handed to the decoder once the five preamble bytes are inside the declared size");
+    vcover!(class == 3 && hi5 != 0, "dict_reset_with_size_bits");
+    vcover!(class == 0, "class0");
+    forget(dec);
+}
